@@ -368,7 +368,7 @@ pub fn build(sp: &SessP) -> Result<Session, String> {
             e_tag: if o.etag { Some(etag(idx)) } else { None },
             allow_immediate_stop_before_first_transfer: None,
         };
-        let url = url::Url::parse(&location(idx)).unwrap();
+        let url = url::Url::parse(&location(o.loc.unwrap_or(idx))).unwrap();
         let ct = ctype(idx);
         let data: Option<Vec<u8>> = if o.sz <= (64 << 20) { Some(content(o)) } else { None };
         let desc: Result<Box<ObjectDesc>, String> = match o.src.as_str() {
@@ -381,6 +381,13 @@ pub fn build(sp: &SessP) -> Result<Session, String> {
                 tc,
             )
             .map_err(|e| format!("{:?}", e)),
+            // a stream the application has already read from (e.g. to sniff the content type): the object is the
+            // WHOLE stream (transfer length = stream length), every transfer has to start at offset 0
+            "streamoff" => {
+                let mut c = std::io::Cursor::new(data.clone().ok_or("too-big-for-buf")?);
+                c.set_position((o.sz / 3 + 1).min(o.sz));
+                ObjectDesc::create_from_stream(Box::new(c), &ct, &url, o.md5, tc).map_err(|e| format!("{:?}", e))
+            }
             "sparse" => ObjectDesc::create_from_stream(
                 Box::new(Sparse { len: o.sz, pos: 0, seed: o.seed, ck: o.ck }),
                 &ct,
